@@ -5,8 +5,10 @@
 (* UConn.Extensions as small byte strings) and of MarshalClientHello, so   *)
 (* that the invariants of UConnBuild are checked on the mechanism as it is *)
 (* coded, and enumerates                                                   *)
-(*   every sequence of at most MaxLen mutators (8 kinds; the k-th mutator  *)
-(*   of a path uses the k-th value of its kind)                            *)
+(*   every sequence of at most MaxLen mutators (the kinds in Kinds; the    *)
+(*   k-th mutator of a path uses the k-th value of its kind, except in the *)
+(*   SNI configurations, where SetSNI and the direct edit of the           *)
+(*   SNIExtension take every argument class)                               *)
 (*   x explicit build mode (never / BuildHandshakeState before /           *)
 (*     BuildHandshakeStateWithoutSession before / before and after)        *)
 (*   x server (plain / HelloRetryRequest / HelloRetryRequest with cookie)  *)
@@ -21,7 +23,10 @@
 (***************************************************************************)
 EXTENDS UConnBuild, Json
 
-CONSTANTS MaxLen, Classes, Servers, Modes, FixRemoveSNI
+CONSTANTS MaxLen, Classes, Servers, Modes, FixRemoveSNI,
+          Kinds,       \* the mutator kinds of this configuration
+          SNIAll,      \* TRUE: SetSNI / the direct edit range over every argument class, FALSE: the k-th mutator takes the k-th name
+          SkipVerify   \* the client does not verify the certificate (names no certificate carries)
 
 VARIABLES srv, mode, sess, step, nmut, hist,   \* scenario (sess: a TLS 1.3 session for the server is cached) and path
           cfgSNI, hello, exts, gen, order      \* content: Config.ServerName, Hello fields, UConn.Extensions, freshness, shuffle
@@ -49,16 +54,25 @@ AlpnV(k)   == CASE k = 1 -> <<HTTP11>> [] k = 2 -> <<H2>> [] k = 3 -> <<H2, HTTP
 Cookie     == [i \in 1..24 |-> 192 + i]
 
 \* the library's hostnameInSNI on host names: trailing dots are dropped
-RECURSIVE StripDots(_)
-StripDots(n) == IF n # <<>> /\ n[Len(n)] = 46 THEN StripDots(SubSeq(n, 1, Len(n) - 1)) ELSE n
+\* argument classes of SetSNI: another DNS name, the configured name, IPv4 literal, bracketed and plain IPv6 literal,
+\* the empty name, a name with a trailing dot, a 253-byte name
+Long253 == [i \in 1..253 |-> IF i % 64 = 0 THEN 46 ELSE 97 + (i % 23)]
+SNIArgs == << Names[1], Example, <<49,48,46,48,46,48,46,49>>,                                   \* 10.0.0.1
+              <<91,50,48,48,49,58,100,98,56,58,58,49,93>>, <<50,48,48,49,58,100,98,56,58,58,49>>, \* [2001:db8::1]  2001:db8::1
+              <<>>, Names[2], Long253 >>
+\* values assigned directly to SNIExtension.ServerName
+FieldArgs == << Names[3], <<49,57,50,46,49,54,56,46,49,46,50,53,53>>, <<>>, Names[4] >>            \* 192.168.1.255
+SNIChoice  == IF SNIAll THEN SNIArgs ELSE <<Names[nmut + 1]>>
+FieldChoice == IF SNIAll THEN FieldArgs ELSE <<Names[nmut + 1]>>
 
 \* ------------------------------------------------------------------ abstract content
 X(t, b) == [type |-> t, body |-> b, omit |-> FALSE]
+XS(name) == [type |-> 0, body |-> SNIBody(name), omit |-> name = <<>>]   \* SNIExtension: nothing is written for an empty name
 Fresh(tag, g) == <<tag, g>>
 SpecSuites == <<2570, 4865, 4866, 4867, 49195, 49199, 52393, 156, 47>>
 \* the extension objects a preset puts into UConn.Extensions; the SNI extension takes Config.ServerName
 BaseExts(name, g) ==
-  << X(2570, <<>>), X(0, SNIBody(name)), X(23, <<>>), X(10, <<0,6,10,10,0,29,0,23>>), X(16, Vec16(ProtoList(<<H2, HTTP11>>))),
+  << X(2570, <<>>), XS(name), X(23, <<>>), X(10, <<0,6,10,10,0,29,0,23>>), X(16, Vec16(ProtoList(<<H2, HTTP11>>))),
      X(5, <<1,0,0,0,0>>), X(18, <<>>), X(51, Fresh(51, g)), X(43, <<2,3,4>>), X(27, <<2,0,2>>), X(21, <<0,0>>) >>
 Swap(s, i, j) == [s EXCEPT ![i] = s[j], ![j] = s[i]]
 \* pre_shared_key stays last; without a session OmitEmptyPsk leaves it out, with one its binders are patched into the
@@ -126,10 +140,20 @@ MSetClientRandom ==
   /\ SetClientRandom(RandV(K))
   /\ hello' = [hello EXCEPT !.random = RandV(K)] /\ UNCHANGED <<cfgSNI, exts>>
 MSetSNI ==
-  /\ Mut([op |-> "SetSNI", name |-> Names[K]])
-  /\ SetSNI(StripDots(Names[K]))
-  /\ cfgSNI' = StripDots(Names[K])
-  /\ exts' = [i \in DOMAIN exts |-> IF exts[i].type = 0 THEN [exts[i] EXCEPT !.body = SNIBody(StripDots(Names[K]))] ELSE exts[i]]
+  \E a \in Range(SNIChoice) :
+  /\ Mut([op |-> "SetSNI", name |-> a])
+  /\ SetSNI(HostnameInSNI(a))
+  /\ cfgSNI' = HostnameInSNI(a)
+  /\ exts' = [i \in DOMAIN exts |-> IF exts[i].type = 0 THEN XS(HostnameInSNI(a)) ELSE exts[i]]
+  /\ UNCHANGED hello
+\* the caller assigns SNIExtension.ServerName in UConn.Extensions; ApplyConfig copies it into the Config at the next build
+HasSNIExt == \E i \in DOMAIN exts : exts[i].type = 0
+MExtSNIField ==
+  \E a \in Range(FieldChoice) :
+  /\ Mut([op |-> "ExtSNIField", name |-> a])
+  /\ ExtSNIField(HostnameInSNI(a), HasSNIExt)
+  /\ cfgSNI' = IF HasSNIExt THEN HostnameInSNI(a) ELSE cfgSNI
+  /\ exts' = [i \in DOMAIN exts |-> IF exts[i].type = 0 THEN XS(HostnameInSNI(a)) ELSE exts[i]]
   /\ UNCHANGED hello
 MRemoveSNI ==
   /\ Mut(Op("RemoveSNI"))
@@ -193,10 +217,14 @@ MServerSecond == phase = "ch2" /\ ServerHello /\ UNCHANGED mvars
 MFinish == Finish(raw) /\ UNCHANGED mvars
 
 Next == \/ MApplyPreset \/ Pre \/ Post
-        \/ (Ready /\ (MSetClientRandom \/ MSetSNI \/ MRemoveSNI \/ MEditSuites \/ MEditSessionId \/ MExtInsert \/ MExtRemove \/ MExtALPN))
+        \/ (Ready /\ \/ ("SetClientRandom" \in Kinds /\ MSetClientRandom) \/ ("SetSNI" \in Kinds /\ MSetSNI)
+                     \/ ("RemoveSNI" \in Kinds /\ MRemoveSNI) \/ ("EditSuites" \in Kinds /\ MEditSuites)
+                     \/ ("EditSessionId" \in Kinds /\ MEditSessionId) \/ ("ExtInsert" \in Kinds /\ MExtInsert)
+                     \/ ("ExtRemove" \in Kinds /\ MExtRemove) \/ ("ExtALPN" \in Kinds /\ MExtALPN)
+                     \/ ("ExtSNIField" \in Kinds /\ MExtSNIField))
         \/ MStart \/ MSendCH1 \/ MServerFirst \/ MSendCH2 \/ MRefuseRetry \/ MServerSecond \/ MFinish
 
 Terminal == phase \in {"done", "failed"}
 \* scenario emission (once per distinct state; hist is part of the state, every path is a state)
-Emit == Terminal => PrintT(<<"SCN", ToJson([cls |-> cls, server |-> srv, mode |-> mode, sess |-> sess, cookie |-> Cookie, ops |-> hist])>>)
+Emit == Terminal => PrintT(<<"SCN", ToJson([cls |-> cls, server |-> srv, mode |-> mode, sess |-> sess, skipverify |-> SkipVerify, cookie |-> Cookie, ops |-> hist])>>)
 =============================================================================
